@@ -157,6 +157,7 @@ func (r *Recorder) Flush() {
 	if len(sh.Samples) == 0 {
 		sh.Samples = r.trivSamples
 	}
+	sh.Nontrivial = []uint64{}
 	for k := range r.nontrivial {
 		sh.Nontrivial = append(sh.Nontrivial, k)
 	}
